@@ -76,15 +76,17 @@ def plan(tier):
     pl.units.append(U("X.complete_cb.missing", "contracts.gating", "h_complete_cb_missing", (), native_ok=True, sample_models=True))
     pl.units.append(U("X.complete_cb.string", "contracts.gating", "h_complete_cb_string", (), native_ok=True, sample_models=True))
 
+    pl.units.append(U("F.parse_file", "contracts.pushdown", "h_parse_file", (), setup=("contracts.pushdown", "setup_parse_file")))
+
     def lf(u, label):
-        return label.startswith("X.") or label in ("funnel", "G3.cb.monotone")
+        return label.startswith(("X.", "F.")) or label in ("funnel", "G3.cb.monotone")
 
     pl.label_filter = lf
     pl.static = [static_funnel, lambda: lexfacts.obligations_L1(PID), lambda: lexfacts.obligations_ascii(PID),
                  lambda: lexfacts.obligations_structure(PID), lambda: lexfacts.obligations_no_nested_repeat(PID)]
     pl.bounded = [bounded_tokens, bounded_generated, bounded_bytes]
     pl.functions = common.ARG_FUNCTIONS + [("sievelib.commands", "get_command_instance"), ("sievelib.commands", "RequireCommand.complete_cb"),
-                                           ("sievelib.parser", "Parser.parse"), ("sievelib.parser", "Lexer.scan")]
+                                           ("sievelib.parser", "Parser.parse"), ("sievelib.parser", "Lexer.scan"), ("sievelib.parser", "Parser.parse_file")]
     pl.trusted = [common.TRUSTED_RE, common.TRUSTED_LOWER, "time spent inside one `re` match (the engine itself)"]
     pl.unverified = ["termination and exception-freedom of the push-down step functions (__command/__arguments/__up/"
                      "__check_command_completion) for all inputs: BOUNDED (enumeration + byte mutations, with a lexer-step counter)",
@@ -97,5 +99,8 @@ def plan(tier):
         "type and value; the require callback tolerates a missing argument; every raise site in parser.py/commands.py "
         "constructs a funnelled exception and parse() has one handler that turns them into `False` + `line N: ...`. "
         "Bounded: no exception, verdict in {True, False}, error text/line bounds and lexer steps <= 2*len+1 on token "
-        "sequences, generated scripts, single-token edits and byte-level mutations (invalid UTF-8, NUL, truncation).")
+        "sequences, generated scripts, single-token edits and byte-level mutations (invalid UTF-8, NUL, truncation). (F) "
+        "parse_file opens the file once, hands its BYTES to parse() unchanged (so decoding happens inside parse()'s funnel), "
+        "returns parse()'s verdict and closes the file (open() cut by a contract: binary mode gives the bytes, text mode "
+        "would decode -- and may raise -- outside the funnel); the byte-mutation inputs are also fed through parse_file.")
     return pl
